@@ -57,6 +57,7 @@ func newExporter(tree *ImmutableTree) (*Exporter, error) {
 	}
 
 	tree.ndb.incrVersionReaders(tree.version)
+	verifSpawn(exporter)
 	go exporter.export(ctx)
 
 	return exporter, nil
@@ -64,6 +65,8 @@ func newExporter(tree *ImmutableTree) (*Exporter, error) {
 
 // export exports nodes
 func (e *Exporter) export(ctx context.Context) {
+	verifEnter(e)
+	defer verifExit(e)
 	defer close(e.ch)
 	// depth-first post-order traversal; unlike traversePost it does not drop
 	// the error of a node that fails to load
@@ -84,6 +87,10 @@ func (e *Exporter) export(ctx context.Context) {
 			Height:  node.subtreeHeight,
 		}
 
+		verifBlockUntil(func() bool { return len(e.ch) < cap(e.ch) || ctx.Err() != nil })
+		if verifStop(ctx) {
+			return
+		}
 		select {
 		case e.ch <- exportNode:
 		case <-ctx.Done():
@@ -94,6 +101,7 @@ func (e *Exporter) export(ctx context.Context) {
 
 // Next fetches the next exported node, or returns ExportDone when done.
 func (e *Exporter) Next() (*ExportNode, error) {
+	verifBlockUntil(func() bool { return len(e.ch) > 0 || verifDone(e) })
 	if exportNode, ok := <-e.ch; ok {
 		return exportNode, nil
 	}
@@ -107,6 +115,7 @@ func (e *Exporter) Next() (*ExportNode, error) {
 // Close closes the exporter. It is safe to call multiple times.
 func (e *Exporter) Close() {
 	e.cancel()
+	verifBlockUntil(func() bool { return verifDone(e) })
 	for range e.ch { //nolint:revive
 	} // drain channel
 	if e.tree != nil {
